@@ -76,6 +76,7 @@ func New(
 		})
 	}
 	app.Use(middlewares.DecodeURL(l, mm))
+	app.Use(middlewares.GuardPaths(l, mm))
 	if server.debug {
 		app.Use(middlewares.DebugLogger())
 	}
